@@ -101,6 +101,9 @@ pub enum GenerateError {
     /// An untyped integer constant is outside the range of values that can be written as a literal
     IntLiteralOutOfRange,
 
+    /// Struct templates and the structs made from them are not exported yet
+    UnimplementedStructTemplate,
+
     /// Bind group (register space) index is outside the range of argument buffers we generate
     UnsupportedBindGroupIndex(u32),
 
@@ -541,7 +544,7 @@ fn generate_root_definition(
     let namespace = match decl {
         ir::RootDefinition::Struct(id) => module.struct_registry[id.0 as usize].namespace,
         ir::RootDefinition::StructTemplate(_) => {
-            todo!("RootDefinition::StructTemplate")
+            return Err(GenerateError::UnimplementedStructTemplate);
         }
         ir::RootDefinition::Enum(id) => module.enum_registry.get_enum_definition(*id).namespace,
         ir::RootDefinition::ConstantBuffer(id) => module.cbuffer_registry[id.0 as usize].namespace,
@@ -561,7 +564,7 @@ fn generate_root_definition(
             Vec::from([ast::RootDefinition::Struct(def)])
         }
         ir::RootDefinition::StructTemplate(_) => {
-            todo!("RootDefinition::StructTemplate")
+            return Err(GenerateError::UnimplementedStructTemplate);
         }
         ir::RootDefinition::Enum(id) => {
             let def = generate_enum(*id, context)?;
